@@ -29,21 +29,25 @@ EXPLANATION = ("exceptional-frame VCs of assemble(): on every exit the executor 
                "DuplicateModules, MissingModule) the citation cells and reference lists of every input equal the pre-state; "
                "fragments are fresh (slice contract: new containers); census of every mutation site of the package")
 
-# every store / mutating call in the files below must be one of these (function, target) pairs
-WHITELIST = {
-    ("moclo/moclo/core/_assembly.py", "AssemblyManager.__init__"): {"self.vector", "self.modules", "self.elements", "self.name", "self.id", "details"},
-    ("moclo/moclo/core/_assembly.py", "AssemblyManager.assemble"): {"modmap", "assembly", "citations", "elem"},
-    ("moclo/moclo/core/_assembly.py", "AssemblyManager._generate_modules_map"): {"modmap", "m", "details", "call:modmap.setdefault", "mod", "overhang"},
-    ("moclo/moclo/core/_assembly.py", "AssemblyManager._generate_assembly"): {"overhang_next", "assembly", "module", "call:modmap.pop", "ke"},
-    ("moclo/moclo/core/_assembly.py", "AssemblyManager._deref_citations"): {"references", "match", "ref_index", "feature.qualifiers['citation'][i]", "feature", "i", "ref"},
-    ("moclo/moclo/core/_assembly.py", "AssemblyManager._ref_citations"): {"references", "ref_index", "feature.qualifiers['citation'][i]", "call:record.annotations.setdefault", "call:references.append", "feature", "i", "ref"},
-    ("moclo/moclo/core/_assembly.py", "AssemblyManager._save_citations"): {"feature", "elem", "citations", "call:citations.append"},
-    ("moclo/moclo/core/_assembly.py", "AssemblyManager._restore_citations"): {"feature.qualifiers['citation'][:]", "feature.qualifiers['citation']", "feature", "citation"},
-    ("moclo/moclo/core/_assembly.py", "AssemblyManager._annotate_assembly"): {"assembly.id", "assembly.name", "ants", "ants['topology']", "ants['organism']", "ants['source']", "ants['molecule_type']", "ants['data_file_division']", "ants['comment']", "mod"},
-    ("moclo/moclo/core/_utils.py", "add_as_source"): {"quals", "location", "feat", "call:dst_record.features.append"},
-    ("moclo/moclo/core/_utils.py", "cutter_check"): set(),
+# frame specification (pyvc/frames.py): per function, the parameters whose reachable state it may write freely
+# (`free`: the product under construction) and the shapes of the other escaping stores it may perform.  Local
+# rebinding and writes to fresh local containers are never store sites, names are abstracted to roles, constant
+# keys to K: renaming locals / parameters or writing one more key of the product cannot trip the census.
+FRAME_ASSEMBLY = {
+    "AssemblyManager.__init__": dict(),                                   # own attributes only
+    "AssemblyManager.assemble": dict(),
+    "AssemblyManager._save_citations": dict(),
+    "AssemblyManager._restore_citations": dict(shapes={"L.qualifiers[K][:]"}),     # the cells it must restore
+    "AssemblyManager._generate_modules_map": dict(),
+    "AssemblyManager._generate_assembly": dict(shapes={"call:P0.pop"}),            # the map built for this call
+    "AssemblyManager._deref_citations": dict(shapes={"L.qualifiers[K][L]"}),       # the cells CIT (modelled)
+    "AssemblyManager._ref_citations": dict(free={"P0"}),                           # P0 = the product
+    "AssemblyManager._annotate_assembly": dict(free={"P0"}),                       # P0 = the product
 }
-MUTATORS = {"append", "extend", "insert", "pop", "remove", "clear", "setdefault", "update", "sort", "reverse", "popitem", "__setitem__", "__delitem__"}
+FRAME_UTILS = {
+    "add_as_source": dict(shapes={"call:P1.features.append"}),                     # P1 = the fresh fragment (contract)
+    "cutter_check": dict(),
+}
 
 
 def obligations(ctx):
@@ -59,64 +63,30 @@ def obligations(ctx):
     return keep + census(ctx) + lemmas(ctx)
 
 
-def stores_in(fnode):
-    out = set()
-    for n in ast.walk(fnode):
-        targets = []
-        if isinstance(n, ast.Assign):
-            targets = n.targets
-        elif isinstance(n, (ast.AugAssign, ast.AnnAssign)):
-            targets = [n.target]
-        elif isinstance(n, (ast.For, ast.comprehension)):
-            targets = [n.target]
-        elif isinstance(n, ast.Delete):
-            targets = n.targets
-        elif isinstance(n, ast.ExceptHandler) and n.name:
-            out.add(n.name)
-        for t in targets:
-            for e in (t.elts if isinstance(t, ast.Tuple) else [t]):
-                out.add(ast.unparse(e))
-        if isinstance(n, ast.Call) and isinstance(n.func, ast.Attribute) and n.func.attr in MUTATORS:
-            out.add("call:" + ast.unparse(n.func))
-    return out
-
-
 def census(ctx):
+    from pyvc import frames
     out = []
     unlisted = []
-    for rel in ("moclo/moclo/core/_assembly.py", "moclo/moclo/core/_utils.py"):
+    for rel, spec in (("moclo/moclo/core/_assembly.py", FRAME_ASSEMBLY), ("moclo/moclo/core/_utils.py", FRAME_UTILS)):
         mi = ctx.repo.modules.get(rel)
         if mi is None:
             continue
-        funcs = [(n, f) for n, f in mi.functions.items()]
-        for cname, ci in mi.classes.items():
-            funcs += [("%s.%s" % (cname, n), f) for n, f in ci.methods.items()]
-        for qual, f in funcs:
-            allowed = WHITELIST.get((rel, qual))
-            found = stores_in(f)
-            if allowed is None:
-                if found:
-                    unlisted.append("%s::%s: %s" % (rel, qual, sorted(found)))
-                continue
-            extra = found - allowed
-            if extra:
-                unlisted.append("%s::%s: %s" % (rel, qual, sorted(extra)))
-    out.append(Obligation("C07.F1 census: every store/mutating call of _assembly.py and core/_utils.py is a listed site", [],
-                          tm.B(not unlisted), kind="F", text="unlisted mutation sites: %s" % unlisted,
+        unlisted += frames.check_frame(mi, rel, spec)
+    out.append(Obligation("C07.F1 census: every escaping store of _assembly.py and core/_utils.py is within the frame", [],
+                          tm.B(not unlisted), kind="F", text="stores outside the frame: %s" % unlisted,
                           meta=dict(function="census", clause="F1", detail=unlisted)))
-    # entity methods must not store anything on self.record / inputs
+    # entity methods must not write to anything reachable from self (the wrapped record) or from their arguments;
+    # rebinding an attribute of the wrapper itself and the class-level pattern cache (C06) are not inputs
     bad = []
-    for rel in ("moclo/moclo/core/modules.py", "moclo/moclo/core/vectors.py", "moclo/moclo/core/_structured.py"):
+    for rel in ("moclo/moclo/core/modules.py", "moclo/moclo/core/vectors.py", "moclo/moclo/core/_structured.py",
+                "moclo/moclo/core/parts.py"):
         mi = ctx.repo.modules.get(rel)
         if mi is None:
             continue
-        for cname, ci in mi.classes.items():
-            for n, f in ci.methods.items():
-                for s in stores_in(f):
-                    if s.startswith(("self.record.", "self.record[", "call:self.record.")) or ".features" in s or ".annotations" in s or ".qualifiers" in s:
-                        bad.append("%s::%s.%s: %s" % (rel, cname, n, s))
-    out.append(Obligation("C07.F2 census: entity methods do not write to the wrapped record", [], tm.B(not bad), kind="F",
-                          text="stores on the wrapped record: %s" % bad, meta=dict(function="census", clause="F2", detail=bad)))
+        bad += frames.check_frame(mi, rel, {}, ignore_roots=("cls", "G:"))
+    out.append(Obligation("C07.F2 census: entity methods do not write to the wrapped record or to their arguments", [],
+                          tm.B(not bad), kind="F", text="stores on inputs: %s" % bad,
+                          meta=dict(function="census", clause="F2", detail=bad)))
     return out
 
 
